@@ -10,7 +10,9 @@ def run(ctx):
     ra = vlib.tlc_check(ctx.scratch, "ServerImpl", "ServerImpl_norecover.cfg", workers=1, expect_violation="HealthyServed")
     rb = vlib.tlc_check(ctx.scratch, "ServerImpl", "ServerImpl_noretry.cfg", workers=1, expect_violation="KeepsAccepting")
     rc_ = vlib.tlc_check(ctx.scratch, "ServerImpl", "ServerImpl_unseq.cfg", workers=1, expect_violation="NoDrop")
-    ctx.log("R1: ServerImpl %d distinct states: isolation invariants hold; without recover / without retry on temporary accept errors they are violated, and two undecodable inputs not sequenced on the receipt of the first report lose the second report (one-slot non-blocking offer), as they must" % r1["distinct"])
+    rt = vlib.tlc_check(ctx.scratch, "ServerImpl", "ServerImpl_tls.cfg", workers=4)
+    rta = vlib.tlc_check(ctx.scratch, "ServerImpl", "ServerImpl_tlsaccept.cfg", workers=1, expect_violation="AcceptNotBlocked")
+    ctx.log("R1: ServerImpl %d distinct states: isolation invariants hold; without recover / without retry on temporary accept errors they are violated, and two undecodable inputs not sequenced on the receipt of the first report lose the second report (one-slot non-blocking offer), as they must; with a TLS handshake step per connection (%d states) acceptance is never blocked, and is when the accept loop performs the handshake" % (r1["distinct"], rt["distinct"]))
     if ctx.replay:
         cases = [json.load(open(ctx.replay))["case"]]
         g = dict(generated=0, distinct=0)
@@ -52,12 +54,12 @@ def run(ctx):
             v.report("%s:%s:temps=%s" % (reason, "+".join(kinds), "yes" if any(line["case"]["temps"]) else "no"), line["case"],
                      detail="conns=%s reports=%d accepted=%d serve_returned=%s" % (json.dumps(line["conns"]), line["reports"], line["accepted"], line["serve_returned"]))
     keys = set(json.dumps(c, sort_keys=True) for c in cases)
-    cov = dict(states=r1["distinct"] + ra["distinct"] + rb["distinct"] + rc_["distinct"] + g["distinct"] + st["distinct"],
+    cov = dict(states=rt["distinct"] + rta["distinct"] + r1["distinct"] + ra["distinct"] + rb["distinct"] + rc_["distinct"] + g["distinct"] + st["distinct"],
                transitions=r1["generated"] + ra["generated"] + rb["generated"] + rc_["generated"] + g["generated"] + st["generated"],
                traces_validated_against_impl=len(lines), evaluations=len(lines), distinct_nontrivial=len(keys),
                rule="R1: spec/ServerImpl.tla for 3 connections x 2 messages x <= 2 temporary accept errors anywhere in the accept sequence, every interleaving; R2: 2-3 connections x messages x every placement of "
                     "one (thorough: two) fault(s) among {handler panic, undecodable message, disconnect between messages, disconnect inside a message} x four patterns of temporary accept errors (before / between / after accepts), "
-                    "on a real Server.Serve with an echo handler (also under a state machine); a probe connection pushed after the trailing accept errors must be served. every scenario has >= 2 connections and >= 1 fault; distinct by scenario Since extended: the report channel as a one-slot lossy channel (undecodable inputs sequenced on receipt); a message nested deeper than the decoder accepts as a fault kind.",
+                    "on a real Server.Serve with an echo handler (also under a state machine); a probe connection pushed after the trailing accept errors must be served. every scenario has >= 2 connections and >= 1 fault; distinct by scenario Since extended: the report channel as a one-slot lossy channel (undecodable inputs sequenced on receipt); a message nested deeper than the decoder accepts as a fault kind; a disconnect inside a message body; a TLS listener (tls.NewListener over in-memory pipes) with peers that stall in or fail the TLS handshake before / between / after healthy peers (ServerImpl with a handshake step per connection).",
                samples=[dict(case=l["case"], conns=l["conns"], reports=l["reports"]) for l in lines[0:len(lines):max(1, len(lines) // 3)]][:3],
                exhaustive=True, rejected=len(bad), known_finding_hits={k: n for k, (n, _) in v.hits.items()})
     rc = v.finish()
